@@ -111,6 +111,16 @@ def gen(rng, tier):
                        (["s%d" % (ta + 1), "I"], fa), (["t%d" % ((ht + 1) % 4), "I"], fa)):
             for v in ("V", "-"):
                 lines.append(P(seq, v, f))
+    # a zck_validate_lead that FAILS (wrong pinned length / digest / a truncated lead) must leave the context ready for the
+    # next read: corrected pins (or the completed file) then open
+    for ht, fa, dga, ta in bases:
+        good = hexstr(dga)
+        bad = bytearray(good); bad[5] = ord("0") if bad[5] != ord("0") else ord("1")
+        for seq in (["s%d" % (ta + 1), "v", "s%d" % ta], ["t%d" % ht, "d" + good.hex(), "s%d" % (ta - 1), "v", "v", "s%d" % ta, "v"],
+                    ["t%d" % ht, "s%d" % ta, "F" + fa[:30].hex(), "v", "F" + fa.hex()], ["F" + fa[:10].hex(), "v", "F" + fa.hex(), "v"],
+                    ["t%d" % ((ht + 1) % 4), "v", "t%d" % ht]):
+            for v in ("V", "-"):
+                lines.append(P(seq, v, fa))
     # the file changes under a context whose pins were already used once (validate_lead on the pinned file, or a refused
     # length followed by clear-error and the right length): the pins must still hold for the next read
     for ht, fa, dga, ta in bases:
@@ -221,6 +231,15 @@ def run(res, tier, only_case=None):
                 if not m2 and (" open=OK" in i or " val=1" in i):
                     res.violation("oracle", key, "pinned type %s / length %s accepted as options, file has type %d / length %d, and it still gets through: %s"
                                   % (cur_t, last_s, lead["ht"], lead["lead"] + lead["hlen"], i[:80]), case)
+                    continue
+            # the other direction: every option call succeeded (failed zck_validate_lead calls leave no error behind) and
+            # the pins in force equal the file's values: the open must succeed, whatever was validated before
+            if all(r == "1" for o, r in zip(oplist, fields["set"]) if o[0] != "v") and any(o[0] == "v" for o in oplist):
+                allm = ((cur_t is None or cur_t == lead["ht"]) and (last is None or (last[1] is not None and last[1] == f[lead["dloc"]:lead["lead"]]))
+                        and (last_s is None or last_s == lead["lead"] + lead["hlen"]))
+                if allm and " open=OK" not in i and zckfmt.parse_file(f) is not None:
+                    res.violation("oracle", key, "pins equal the file's values, every option call succeeded, yet after the calls [%s] (results %s) the valid file "
+                                  "is refused: %s" % (",".join(o[:10] for o in oplist), fields["set"], i[:80]), case)
                     continue
             if last is not None and last[1] is not None:
                 match = (last[0] == lead["ht"] and last[1] == f[lead["dloc"]:lead["lead"]] and
